@@ -348,6 +348,7 @@ class Gen:
     # ---- overload holder
     def build_overloads(self):
         r, m = self.r, self.m
+        self.diamond = None
         pool = PRIMS + r.sample(m.order, min(len(m.order), 3))
         sigs = set()
         for _ in range(r.randint(2, 6)):
@@ -369,6 +370,7 @@ class Gen:
                 else:
                     tri = [("long", "int"), ("int", "long"), ("int", "int")]
             sigs.update(tri)
+            self.diamond = tri[2]
         self.ov = sorted(sigs)
         r.shuffle(self.ov)
         L = ["class U {", "    public constructor() -> U = default;"]
@@ -622,6 +624,22 @@ class Gen:
         n = r.randint(6, 16)
         depth = 1
         for _ in range(n):
+            if self.diamond and r.random() < 0.12:
+                # a call whose argument types are the apex of the overload diamond: two worse candidates tie,
+                # one candidate is strictly best
+                apex = self.diamond
+                if apex == ("int", "int"):
+                    args_src = ["%d" % r.randint(1, 9), "%d" % r.randint(1, 9)]
+                else:
+                    vs0 = {v: d for s0 in scopes for v, d in s0.items() if d["obj"] is not None and d["static"] == apex[0]}
+                    args_src = [r.choice(sorted(vs0)), r.choice(sorted(vs0))] if vs0 else None
+                if args_src:
+                    sig = m.resolve(self.ov, list(apex))
+                    if sig is not None:
+                        emit(depth, "echo(u.ov(%s));" % ", ".join(args_src))
+                        out.append("ov(%s)" % ",".join(sig))
+                        out.append(str(len(sig)))
+                    continue
             if self.drops and r.random() < 0.12:
                 cname = r.choice(sorted(self.drops))
                 fn, sig, args, val = self.drops[cname]
